@@ -142,7 +142,14 @@ pub fn judge(rep: &mut Reporter, m: &Manifest, reg: &Registry, p: &P26, h: &Hist
                     rep.eval();
                     let lp = tap_loop.get(&e.site).copied().unwrap_or(0);
                     if *k >= w.len() {
-                        first = Some((e.site, e.tick, if p.depth(lp) == 1 && *k >= 1 { "root-loop-ran-more-than-once-in-a-tick" } else { "extra-iterations" }));
+                        let kind = if p.depth(lp) == 1 && *k >= 1 {
+                            "root-loop-ran-more-than-once-in-a-tick"
+                        } else if w.is_empty() && lp != 0 {
+                            "ran-without-trigger"
+                        } else {
+                            "extra-iterations"
+                        };
+                        first = Some((e.site, e.tick, kind));
                     } else if w[*k] != v {
                         first = Some((e.site, e.tick, "window-content-differs"));
                     }
@@ -164,7 +171,7 @@ pub fn judge(rep: &mut Reporter, m: &Manifest, reg: &Registry, p: &P26, h: &Hist
             let w = want.taps.get(&(site, t)).unwrap_or(&empty);
             let g = got.get(&(site, t)).unwrap_or(&empty);
             // the run was stopped by the step cap (reference + 2 body runs) at this very tap: it does not stop
-            let kind = if capped.is_some() && kind != "window-content-differs" && g.len() >= w.len() + 3 { "does-not-reach-fixpoint" } else { kind };
+            let kind = if capped.is_some() && kind == "extra-iterations" && g.len() >= w.len() + 3 { "does-not-reach-fixpoint" } else { kind };
             rep.violation(
                 &format!("C26|tap|{kind}|{}", loop_class(p, lp)),
                 &format!("{} tick {t}: tap {site} in loop {lp} (depth {}) saw runs {:?}, the reference of the documented semantics gives {:?}", p.prog_id, p.depth(lp), g, w),
